@@ -1,18 +1,58 @@
 (* C10 — Client: inbound QoS 2 exactly once, handshakes finish, ack only if accepted.
-   Only statements, `exact`, and Print Assumptions. *)
+   Only statements, `exact`, and Print Assumptions.  The statements are in Client/ClientSpec.v
+   (and, for the two partial ones, next to their proofs); they quantify over every trace accepted
+   by the CL monitor Client.step: every broker script, every interleaving of processor, API
+   callers, pinger and die body, every failure position. *)
 From Coq Require Import List NArith.
-From GM Require Import Base.Lts Codec.Packet Session.Store Client.Future Client.Client Client.ClientSpec Client.ClientWitness.
+From GM Require Import Base.Lts Codec.Packet Session.Store Client.Future Client.Client Client.ClientSpec
+  Client.ClientWitness Client.ClientInvCtl Client.ClientInvOwed Client.ClientInvHs Client.ClientC10.
 Import ListNotations.
 Open Scope N_scope.
 
-(* full statements (ClientSpec.v): false of the current tree, see known_findings.json *)
+(* every QoS 2 PUBLISH is stored, then answered by PUBREC; none is owed when the processor is back in Receive *)
+Theorem C10_pubrec_always : C10_pubrec_always_statement.
+Proof. exact pubrec_always. Qed.
+Print Assumptions C10_pubrec_always.
+
+(* after a callback error no PUBACK/PUBREC/PUBCOMP can be written and the connection is closed *)
+Theorem C10_no_ack_on_error : C10_no_ack_on_error_statement.
+Proof. exact no_ack_on_error. Qed.
+Print Assumptions C10_no_ack_on_error.
+
+(* QoS 0/1: callback on arrival, QoS 1 then PUBACK *)
+Theorem C10_qos01 : C10_qos01_statement.
+Proof. exact qos01. Qed.
+Print Assumptions C10_qos01.
+
+(* full statements: false of the current tree (open findings KF-C10-a, KF-C10-b) *)
 Definition C10_exactly_once_statement : Prop := ClientSpec.C10_exactly_once_statement.
 Definition C10_pubrel_answered_statement : Prop := ClientSpec.C10_pubrel_answered_statement.
 
+(* witness: CONNACK, PUBREL(9) with an empty incoming store: back in Receive, PUBCOMP(9) still owed *)
 Theorem C10_pubrel_answered_refuted : ~ C10_pubrel_answered_statement.
 Proof. exact pubrel_answered_refuted. Qed.
 Print Assumptions C10_pubrel_answered_refuted.
 
+(* a PUBREL for a stored id is answered: callback (default mode), PUBCOMP write, removal — nothing else *)
+Theorem C10_pubrel_answered_partial : C10_pubrel_answered_partial_statement.
+Proof. exact pubrel_answered_partial. Qed.
+Print Assumptions C10_pubrel_answered_partial.
+
+(* witness: PUBLISH(7,q2) PUBREC PUBREL callback, PUBCOMP write fails, Close, resume, PUBREL: second callback *)
 Theorem C10_exactly_once_refuted : ~ C10_exactly_once_statement.
 Proof. exact exactly_once_refuted. Qed.
 Print Assumptions C10_exactly_once_refuted.
+
+(* without a failed PUBCOMP write (and with a session whose DeletePacket works) the full statement holds *)
+Theorem C10_exactly_once_partial : C10_exactly_once_partial_statement.
+Proof. exact exactly_once_partial. Qed.
+Print Assumptions C10_exactly_once_partial.
+
+(* non-vacuity: the witnesses above are accepted traces that reach the states in question; a complete
+   QoS 2 handshake in default mode with exactly one delivery: *)
+Example C10_nonvacuous : exists s,
+  run step init (opening 1 false ++
+    [ ERx (Publish false msg7 7); ESave Incoming (Publish false msg7 7) Ok; ETx (Pubrec 7) true Ok;
+      ERx (Pubrel 7); ELookup Incoming 7 (Some (Some (Publish false msg7 7))); ECb msg7 Ok ]) = Some s /\
+  k_ppc (k s) = PRelComp 7 7 /\ g_hs (g s) = [(7, 1)] /\ g_compfail (g s) = false.
+Proof. eexists. split; [vm_compute; reflexivity|]. vm_compute. repeat split. Qed.
